@@ -18,6 +18,7 @@ package drummer
 //                <nhosts> { key addr region tick nplog { shard replica } nshards { shard } }
 //                <nkill>  { shard replica addr }
 //                <nints>  int..   <nu64> u64..          (the scripted random source)
+//                [<nleaders> { shard replica }]         (optional: replicas of the view flagged IsLeader)
 // output line: B <n> { type shard nmembers m.. ccid nrids r.. naddrs a.. inst raft join restore app } D <ints drawn> <u64 drawn>
 //              | E <0 = errNotEnoughNodeHost, 1 = other> | P
 // strings: address n <-> "a<n>", region n <-> "g<n>" (999 <-> unknownRegion), app n <-> "app<n>", 0 <-> "".
@@ -173,6 +174,17 @@ func vschParse(t *vschToks) (*schedulerContext, *vschSource, bool) {
 	}
 	for n := t.u(); n > 0; n-- {
 		src.u64s = append(src.u64s, t.u())
+	}
+	// optional: replicas flagged IsLeader in the view (contexts computed by the real DB carry them)
+	if t.i < len(t.f) {
+		for n := t.u(); n > 0; n-- {
+			sid, rid := t.u(), t.u()
+			if c, ok := sc.ShardImage.Shards[sid]; ok {
+				if r, ok := c.Replicas[rid]; ok {
+					r.IsLeader = true
+				}
+			}
+		}
 	}
 	return sc, src, viaJSON
 }
